@@ -37,6 +37,8 @@ class Repo:
         """qual = 'parser.HTTPRequestParser.received' or 'parser.get_header_lines' or
         'task.WSGITask.execute.<start_response>'; returns the FunctionDef/ClassDef or None"""
         parts = qual.split(".")
+        if not os.path.exists(self.path(parts[0])):
+            return None
         node = self.tree(parts[0])
         for p in parts[1:]:
             name = p.strip("<>")
